@@ -139,16 +139,15 @@ def arrival_guard(ctx, P, iters):
     for view in family_views(P, "Node"):
         cls, fn = view.method("write_baulking_or_rejection_record")
         found = False
-        for n in ast.walk(fn):
-            if isinstance(n, ast.Call) and call_name(n) == "DataRecord":
-                for k in n.keywords:
-                    if k.arg == "queue_size_at_arrival":
+        for n, fields in rules.record_constructions(P, view, fn):
+                for karg, kvalue in fields.items():
+                    if karg == "queue_size_at_arrival":
                         found = True
-                        ob.ok("record:queue_size_at_arrival", unparse(k.value))
-                        if unparse(k.value) != "self.number_of_individuals":
+                        ob.ok("record:queue_size_at_arrival", unparse(kvalue))
+                        if unparse(kvalue) != "self.number_of_individuals":
                             ctx.violation(ob, "R8.rejection-record", "%s.write_baulking_or_rejection_record" % cls.name,
-                                          "queue_size_at_arrival=%s" % unparse(k.value), "not-population-seen",
-                                          "rejection/baulk record must show the population of the node that was tested", loc(k.value))
+                                          "queue_size_at_arrival=%s" % unparse(kvalue), "not-population-seen",
+                                          "rejection/baulk record must show the population of the node that was tested", loc(n))
         if not found:
             ctx.unrecognised("G1: DataRecord(queue_size_at_arrival=...) not found in write_baulking_or_rejection_record")
     # guard evaluated per batch member
